@@ -61,8 +61,25 @@ PROPS = {
         'not_decided': ['that all completion orders give the same values (a whole-build, all-schedules statement)', 'data-race freedom in general, deadlock',
                         'the provide/ready/finish segments of executeTasks'],
     },
+    'C08': {
+        'units': ['extcmd', 'fileinfo'],
+        'design_ref': 'DESIGN.md section 4, C08',
+        'claim': 'kernel only: ExternalCommand::isResultValid declares a stored result valid only if every non-virtual output still matches what the '
+                 'command produced (existence only for mutated outputs) and never for a non-successful stored result; FileInfo ==/!= and '
+                 'getInfoForPath (shared with C13) decide "has this file changed"',
+        'not_decided': ['on-disk equivalence with a clean build (everything the title says)', 'the per-key-kind rule dispatch in lookupRule (closures)',
+                        'FileInputNodeTask / ProducedNodeTask / MissingCommandTask'],
+    },
+    'C10': {
+        'units': ['extcmd'],
+        'design_ref': 'DESIGN.md section 4, C10',
+        'claim': 'every stored command result that is not a success is invalid (retried next build); only a successful stored result counts as a prior '
+                 'result (so a skipped / propagated-failure value can never short-cut execution)',
+        'not_decided': ['getResultForOutput / provideValue / execute (not under contract at this commit)', 'transitive non-execution across the graph and '
+                        'parallel timing', 'the wait-status to process-status mapping in Subprocess.cpp'],
+    },
     'C09': {
-        'units': ['signature', 'engine'],
+        'units': ['signature', 'engine', 'extcmd'],
         'design_ref': 'DESIGN.md section 4, C09',
         'claim': 'ShellCommand::getSignature feeds every argument, both halves of every environment entry, every deps path and the three scalar '
                  'settings exactly once (or only the explicit signature when one is given), never hands out the null signature, caches what it '
